@@ -63,7 +63,7 @@ Decode == /\ pc = "replied"
           /\ UNCHANGED <<requested, buckets, ids, reply>>
 
 \* results and errors are chosen independently; statuses is empty, mirrors results or mirrors errors (bounds the product)
-SmallSets == {{}} \cup {{w} : w \in WireKeys} \cup (IF MaxReply >= 2 THEN {{a, b} : a \in WireKeys, b \in WireKeys} ELSE {})
+SmallSets == IF MaxReply = 0 THEN {{}} ELSE {{}} \cup {{w} : w \in WireKeys} \cup (IF MaxReply >= 2 THEN {{a, b} : a \in WireKeys, b \in WireKeys} ELSE {})
 Replies == {[results |-> r, errors |-> e, statuses |-> s] : r \in SmallSets, e \in SmallSets, s \in {{}}} \cup
            {[results |-> r, errors |-> e, statuses |-> r] : r \in SmallSets, e \in {{}}} \cup
            {[results |-> {}, errors |-> e, statuses |-> e] : e \in SmallSets}
